@@ -1,7 +1,442 @@
-//! C12 — not built yet (stub).
+//! C12 — Dynamic update applies RFC 2136 semantics and keeps the zone well-formed.
+//!
+//! Histories (≤ 6 UPDATE messages) from `gen::updates` are applied to a `SqliteZoneHandler`
+//! (a) through the real path — request bytes signed per RFC 8945 by `tsig_ref`, decoded by
+//! `Request::from_bytes`, dispatched to `ZoneHandler::update(req, now)` with the key configured,
+//! an in-memory journal attached — and (b) directly through `verify_prerequisites` / `pre_scan` /
+//! `update_records` for volume. `refm::update_ref` (RFC 2136 §3.2.5, §3.4.1.3, §3.4.2.7, RFC 1982)
+//! runs in lock step. After every message:
+//!   (i)   accepted ⇔ the model accepts (exact error code recorded, not asserted),
+//!   (ii)  rejected ⇒ zone content and serial unchanged,
+//!   (iii) accepted ⇒ content equals one of the outcomes RFC 2136 allows (SOA serial value aside),
+//!   (iv)  exactly one SOA, ≥ 1 apex NS, no CNAME beside other data, no empty RRset visible,
+//!         name existence (NXDOMAIN vs NODATA) as in the model,
+//!   (v)   serial strictly greater (RFC 1982) ⇔ content changed, else unchanged.
+//!
+//! A deviation is first tested against the `Quirk` rules of `update_ref` (each one a deviating rule
+//! of hickory = one root cause = one signature); only a deviation that one to three quirks
+//! reproduce *exactly* gets that signature, the history then continues from the implementation's
+//! state. Anything else fails immediately with a generic signature.
 
-use crate::core::Check;
+use std::collections::BTreeSet;
+
+use futures_executor::block_on;
+use hickory_server::zone_handler::AxfrPolicy;
+use proptest::prelude::*;
+use serde::{Deserialize, Serialize};
+
+use crate::core::{panic_fail, prop, CaseResult, Check, Fail, Rec, Tier};
+use crate::gen::update_driver::*;
+use crate::gen::updates::{self, History};
+use crate::refm::canon;
+use crate::refm::update_ref::*;
+
+#[derive(Clone, Debug, Serialize, Deserialize)]
+pub struct Case {
+    pub hist: History,
+    /// message IDs / signing time base
+    pub salt: u16,
+}
+
+#[derive(Clone, Copy, PartialEq, Eq)]
+pub enum Mode {
+    Real,
+    Direct,
+}
+
+pub struct Dev {
+    pub sig: &'static str,
+    pub msg: String,
+}
+
+fn diff(a: &Zone, b: &Zone) -> String {
+    let (am, bm) = (a.masked(), b.masked());
+    let mut s = String::new();
+    for (k, t) in &am {
+        if bm.get(k) != Some(t) {
+            s.push_str(&format!("-[{} {} {} {}] ", canon::show(&k.0), t, type_name(k.1), show_rdata(k.1, &k.2)));
+        }
+    }
+    for (k, t) in &bm {
+        if am.get(k) != Some(t) {
+            s.push_str(&format!("+[{} {} {} {}] ", canon::show(&k.0), t, type_name(k.1), show_rdata(k.1, &k.2)));
+        }
+    }
+    s
+}
+
+/// compare what the implementation did with the acceptable outcomes; Ok(index of the matching one)
+pub fn judge(outcomes: &[Outcome], applied: &Applied, before: &Zone, after: &Zone) -> Result<usize, Dev> {
+    let acc = applied.accepted();
+    let cands: Vec<(usize, &Outcome)> = outcomes.iter().enumerate().filter(|(_, o)| o.accept == acc).collect();
+    if cands.is_empty() {
+        let o = &outcomes[0];
+        return Err(if acc {
+            Dev {
+                sig: "accepted-but-rfc2136-rejects",
+                msg: format!("implementation answered {}, RFC 2136 gives rcode {}", applied.show(), o.rcode),
+            }
+        } else {
+            Dev {
+                sig: "rejected-but-rfc2136-accepts",
+                msg: format!("implementation answered {}, RFC 2136 accepts", applied.show()),
+            }
+        });
+    }
+    if !acc {
+        if after != before {
+            return Err(Dev {
+                sig: "rejected-but-zone-changed",
+                msg: format!("answered {} yet the zone changed: {} (serial {:?} -> {:?})", applied.show(), diff(before, after), before.serial(), after.serial()),
+            });
+        }
+        return Ok(cands[0].0);
+    }
+    let (sb, sa) = (before.serial(), after.serial());
+    let am = after.masked();
+    let mut best: Option<Dev> = None;
+    for (i, o) in &cands {
+        if o.zone.masked() != am {
+            if best.is_none() {
+                best = Some(Dev {
+                    sig: "content-differs-from-rfc2136",
+                    msg: format!("accepted; zone differs from the RFC 2136 result (- expected only, + actual only): {}", diff(&o.zone, after)),
+                });
+            }
+            continue;
+        }
+        let (Some(sb), Some(sa)) = (sb, sa) else {
+            return Err(Dev {
+                sig: "zone-soa-count",
+                msg: "no SOA serial readable before or after the message".into(),
+            });
+        };
+        // the client may have set the serial itself (an SOA in the update section): the server's
+        // own bump, if any, is judged from there (RFC 1982 "greater" is not transitive)
+        let base = o.zone.serial().unwrap_or(sb);
+        let advanced = if base != sb { sa == base || serial_gt(sa, base) } else { serial_gt(sa, sb) };
+        // net effect: an add undone by a delete in the same message leaves the content as it was;
+        // whether that counts as "changed" is left open (either serial behaviour is accepted)
+        let net_changed = o.zone.masked() != before.masked() || base != sb;
+        if o.changed && net_changed {
+            if !advanced {
+                best = Some(Dev {
+                    sig: "content-changed-serial-not-advanced",
+                    msg: format!("content changed ({}) but serial went {sb} -> {sa}", diff(before, after)),
+                });
+                continue;
+            }
+        } else if o.changed {
+            if sa != sb && !advanced {
+                best = Some(Dev {
+                    sig: "serial-moved-backwards",
+                    msg: format!("serial went {sb} -> {sa}"),
+                });
+                continue;
+            }
+        } else if sa != sb {
+            best = Some(Dev {
+                sig: "serial-changed-without-content-change",
+                msg: format!("content unchanged but serial went {sb} -> {sa}"),
+            });
+            continue;
+        }
+        return Ok(*i);
+    }
+    Err(best.unwrap())
+}
+
+fn subsets(max: usize) -> Vec<Quirks> {
+    let n = ALL_QUIRKS.len();
+    let mut v: Vec<Quirks> = Vec::new();
+    for mask in 1u32..(1 << n) {
+        if (mask.count_ones() as usize) <= max {
+            v.push((0..n).filter(|i| mask & (1 << i) != 0).map(|i| ALL_QUIRKS[i]).collect());
+        }
+    }
+    v.sort_by_key(|q| q.len());
+    v
+}
+
+/// smallest set of known deviating rules that reproduces the observation exactly
+pub fn explain(model: &Zone, msg: &UMsg, applied: &Applied, before: &Zone, after: &Zone) -> Option<Quirks> {
+    subsets(5).into_iter().find(|qs| judge(&step(model, msg, qs).outcomes, applied, before, after).is_ok())
+}
+
+/// root cause that wrecks the zone so that the history cannot continue behind it: "delete all
+/// RRsets at a name" on the apex removes SOA and NS (inverted origin test); the message is then
+/// answered SERVFAIL or NOERROR depending on what else it carries. Returns the signature and the
+/// prerequisite quirks needed for the message to get as far as the update section.
+fn terminal_explanation(model: &Zone, msg: &UMsg, after: &Zone) -> Option<(&'static str, Quirks)> {
+    let apex_wipe = msg.updates.iter().any(|r| r.class == C_ANY && r.rtype == T_ANY && model.is_apex(&r.name));
+    // no further condition on the effect: once SOA and NS are gone, what the rest of the message and
+    // the serial bump do (SERVFAIL with the zone left wiped, a panic, an SOA re-added from the update
+    // section and bumped from *its* serial) follows from the wipe; called only for deviations that
+    // no precise quirk reproduces
+    let _ = after;
+    if !apex_wipe {
+        return None;
+    }
+    let pre: [Quirks; 4] = [
+        Quirks::new(),
+        [Quirk::PrereqSomeRrEqual].into_iter().collect(),
+        [Quirk::PrereqViaLookup].into_iter().collect(),
+        [Quirk::PrereqSomeRrEqual, Quirk::PrereqViaLookup].into_iter().collect(),
+    ];
+    pre.into_iter()
+        .find(|qs| step(model, msg, qs).outcomes.iter().any(|o| o.accept))
+        .map(|qs| ("delete-all-at-name-origin-test-inverted", qs))
+}
+
+fn serial_class(s: u32) -> &'static str {
+    match s {
+        0xffff_ffff => "serial=2^32-1",
+        0xffff_fff0..=0xffff_fffe => "serial-near-2^32",
+        0x7fff_fff0..=0x8000_0010 => "serial-near-2^31",
+        0 => "serial=0",
+        _ => "serial-small",
+    }
+}
+
+pub fn run_history(c: &Case, mode: Mode, rec: &mut Rec) -> CaseResult {
+    let z0 = c.hist.init.build();
+    let h = build_handler(&z0, AxfrPolicy::Deny).map_err(|e| Fail::new("harness-init", e))?;
+    let key = test_key();
+    let mut h = h;
+    if mode == Mode::Real {
+        h.set_tsig_signers(vec![hickory_signer(&key, 300)]);
+        let j = memory_journal().map_err(|e| Fail::new("harness-init", e))?;
+        block_on(h.set_journal(j));
+        block_on(h.persist_to_journal()).map_err(|e| Fail::new("harness-init", e.to_string()))?;
+    }
+    let h = h;
+    let first = snapshot(&h);
+    vensure!(
+        first.zone == z0 && first.ghosts.is_empty() && first.oddities.is_empty(),
+        "harness-init-mismatch",
+        "loaded zone differs from the model: {} {:?}",
+        diff(&z0, &first.zone),
+        first.oddities
+    );
+    let origin = z0.origin.clone();
+    let mut model = z0.clone();
+    let mut deferred: Vec<(&'static str, String)> = Vec::new();
+    let mut touched: BTreeSet<(Labels, u16)> = BTreeSet::new();
+    let (mut accepts, mut rejects) = (0u32, 0u32);
+    let mut prereq_on_touched = false;
+    let now0 = 1_700_000_000u64 + c.salt as u64;
+    rec.class(format!("msgs={}", c.hist.msgs.len()));
+    rec.class(serial_class(c.hist.init.serial));
+    let mut executed = 0;
+
+    'history: for (i, msg) in c.hist.msgs.iter().enumerate() {
+        executed += 1;
+        for r in &msg.prereqs {
+            rec.class(updates::row_label(r, false));
+            let n = canon::lower(&r.name);
+            if touched.iter().any(|(tn, tt)| *tn == n && (r.rtype == T_ANY || *tt == r.rtype)) {
+                prereq_on_touched = true;
+            }
+        }
+        for r in &msg.updates {
+            rec.class(updates::row_label(r, true));
+        }
+        let before = snapshot(&h);
+        let applied = match mode {
+            Mode::Real => apply_signed(&h, c.salt.wrapping_add(i as u16), &origin, msg, &key, now0 + i as u64),
+            Mode::Direct => apply_direct(&h, msg),
+        };
+        if let Applied::Panic(m, l) = &applied {
+            rec.class("panic");
+            // the apex wipe (delete-all at the apex removes the SOA) followed by the serial bump
+            let apex_wipe = msg.updates.iter().any(|r| r.class == C_ANY && r.rtype == T_ANY && model.is_apex(&r.name));
+            if apex_wipe && m.contains("not an SOA record") {
+                return Err(Fail::new(
+                    "delete-all-at-name-origin-test-inverted",
+                    format!("panic at {l}: {m} [message #{i}: {} on zone {{ {}}}]", msg.show(), model.show()),
+                ));
+            }
+            let mut f = panic_fail(&(m.clone(), l.clone()));
+            f.msg = format!("{} [message #{i}: {} on zone {{ {}}}]", f.msg, msg.show(), model.show());
+            return Err(f);
+        }
+        let after = snapshot(&h);
+        vensure!(after.oddities.is_empty(), "zone-rr-misfiled", "message #{i}: {:?}", after.oddities);
+        let mut explained_now = false;
+        let res = step(&model, msg, &Quirks::new());
+        let model_rc = res.outcomes[0].rcode;
+        let impl_rc = match &applied {
+            Applied::Ok(_) => 0,
+            Applied::Rcode(r) => *r,
+            _ => RC_FORMERR,
+        };
+        if applied.accepted() {
+            accepts += 1;
+        } else {
+            rejects += 1;
+        }
+        rec.class(format!("decided-at={}", res.stage));
+        rec.class(if applied.accepted() { "impl=accept".to_string() } else { format!("impl=rcode{impl_rc}") });
+        if !applied.accepted() && !res.outcomes[0].accept && impl_rc != model_rc {
+            rec.class(format!("error-code-differs:impl{impl_rc}/rfc{model_rc}"));
+        }
+        if let Applied::Undecodable(_) = applied {
+            rec.class("request-undecodable");
+        }
+        match judge(&res.outcomes, &applied, &before.zone, &after.zone) {
+            Ok(idx) => {
+                for b in &res.outcomes[idx].branches {
+                    rec.class(format!("branch:{b}"));
+                }
+            }
+            Err(dev) => {
+                let ctx = format!("message #{i} {} on zone {{ {}}}: {}", msg.show(), model.show(), dev.msg);
+                match explain(&model, msg, &applied, &before.zone, &after.zone) {
+                    Some(qs) => {
+                        if rec.strict {
+                            return Err(Fail::new(qs.iter().next().unwrap().sig(), ctx));
+                        }
+                        for q in &qs {
+                            rec.class(format!("finding:{}", q.sig()));
+                            deferred.push((q.sig(), ctx.clone()));
+                        }
+                        explained_now = true;
+                    }
+                    None => {
+                        let Some((sig, qs)) = terminal_explanation(&model, msg, &after.zone) else {
+                            return Err(Fail::new(dev.sig, ctx));
+                        };
+                        rec.class(format!("finding:{sig}"));
+                        if rec.strict {
+                            return Err(Fail::new(sig, ctx));
+                        }
+                        deferred.push((sig, ctx.clone()));
+                        for q in &qs {
+                            rec.class(format!("finding:{}", q.sig()));
+                            deferred.push((q.sig(), ctx.clone()));
+                        }
+                        rec.class("history-stopped:zone-wrecked-by-known-finding");
+                        break 'history;
+                    }
+                }
+            }
+        }
+        // (iv) invariants on what the implementation holds now
+        if let Some((sig, m)) = invariant_violation(&after.zone) {
+            if explained_now {
+                // the broken invariant is the recorded finding itself (e.g. a second SOA)
+                rec.class("history-stopped:zone-wrecked-by-known-finding");
+                break 'history;
+            }
+            return Err(Fail::new(sig, format!("after message #{i} {}: {m}", msg.show())));
+        }
+        // (iv) name existence as a query sees it; empty RRset objects
+        let mut ghost_seen = None;
+        for (n, t) in &after.ghosts {
+            if let Seen::Records(s) = lookup(&h, n, *t) {
+                if s.is_empty() {
+                    ghost_seen = Some(format!("query {} {} is answered with an empty RRset", canon::show(n), type_name(*t)));
+                }
+            }
+        }
+        let simple_zone = !after.zone.rrs.keys().any(|k| k.0.first().map(|l| l.as_slice()) == Some(b"*") || (k.1 == T_NS && k.0 != origin));
+        if simple_zone {
+            for n in updates::in_zone_names() {
+                if !after.zone.rrset(&n, T_CNAME).is_empty() {
+                    continue;
+                }
+                let exp = if after.zone.name_or_descendant_exists(&n) { Seen::NameExists } else { Seen::NxDomain };
+                let got = lookup(&h, &n, T_AAAA);
+                if got != exp {
+                    let m = format!("after message #{i} {}: query {} AAAA sees {:?}, zone content implies {:?}", msg.show(), canon::show(&n), got, exp);
+                    if after.ghosts.iter().any(|g| canon::is_suffix(&n, &g.0) || g.0.first().map(|l| l.as_slice()) == Some(b"*")) {
+                        ghost_seen = Some(m);
+                    } else {
+                        return Err(Fail::new("name-existence-differs", m));
+                    }
+                }
+            }
+        }
+        if let Some(m) = ghost_seen {
+            let sig = Quirk::GhostRrset.sig();
+            rec.class(format!("finding:{sig}"));
+            let ctx = format!("message #{i} {} on zone {{ {}}}: {m}", msg.show(), model.show());
+            if rec.strict {
+                return Err(Fail::new(sig, ctx));
+            }
+            deferred.push((sig, ctx));
+        }
+        if !after.ghosts.is_empty() {
+            remove_ghosts(&h);
+        }
+        // continue from the implementation's state (equal to the model's unless a finding was recorded)
+        for k in before.zone.masked().keys().chain(after.zone.masked().keys()) {
+            if before.zone.masked().get(k) != after.zone.masked().get(k) {
+                touched.insert((k.0.clone(), k.1));
+            }
+        }
+        model = after.zone.clone();
+    }
+
+    rec.class(format!("executed={executed}"));
+    if c.hist.msgs.len() >= 2 && prereq_on_touched && accepts >= 1 && rejects >= 1 {
+        rec.nontrivial();
+        if rec.wants_note() {
+            rec.note(updates::show_history(&c.hist));
+        }
+    }
+    if let Some((sig, ctx)) = first_unknown_or_first(&deferred) {
+        let all: Vec<&str> = deferred.iter().map(|d| d.0).collect();
+        return Err(Fail::new(sig, format!("{ctx} [history continued; findings in this history: {all:?}]")));
+    }
+    Ok(())
+}
+
+/// prefer reporting a finding that is not yet listed as known, so that nothing hides behind a
+/// known one in the same history
+fn first_unknown_or_first(deferred: &[(&'static str, String)]) -> Option<(&'static str, String)> {
+    let known = known_sigs("C12");
+    deferred.iter().find(|s| !known.iter().any(|k| k == s.0)).or(deferred.first()).cloned()
+}
+
+pub fn known_sigs(prop: &str) -> Vec<String> {
+    use std::sync::OnceLock;
+    static ALL: OnceLock<Vec<(String, String)>> = OnceLock::new();
+    let all = ALL.get_or_init(|| {
+        let txt = std::fs::read_to_string(crate::core::vpath("known_findings.json")).unwrap_or_default();
+        let v: serde_json::Value = serde_json::from_str(&txt).unwrap_or(serde_json::Value::Null);
+        v["findings"]
+            .as_array()
+            .map(|a| {
+                a.iter()
+                    .filter(|f| f["status"] == "known")
+                    .map(|f| (f["property"].as_str().unwrap_or("").to_string(), f["signature"].as_str().unwrap_or("").to_string()))
+                    .collect()
+            })
+            .unwrap_or_default()
+    });
+    all.iter().filter(|(p, _)| p == prop).map(|(_, s)| s.clone()).collect()
+}
+
+fn case_strategy(tier: Tier) -> impl Strategy<Value = Case> {
+    let _ = tier;
+    (updates::history(6, true), any::<u16>()).prop_map(|(hist, salt)| Case { hist, salt })
+}
 
 pub fn check() -> Option<Check> {
-    None
+    let real = prop("history_real_path", 20_000, 400_000, case_strategy, |c: &Case, rec: &mut Rec| run_history(c, Mode::Real, rec));
+    let direct = prop("history_direct", 100_000, 2_000_000, case_strategy, |c: &Case, rec: &mut Rec| run_history(c, Mode::Direct, rec));
+    Some(Check {
+        id: "C12",
+        level: "exploration",
+        rule: "histories of 1..6 UPDATE messages (0..3 prerequisite RRs, 0..5 update RRs each) over 14 owner names (apex in two spellings, hosts, case variant, wildcard, child, delegation point and a name below it, 4 out-of-zone names) x class {zone, ANY, NONE, CH} x type {A, TXT, NS, CNAME, SOA, ANY, AXFR} x ttl {0, >0} x rdata {empty, 3 values per type; SOA serials near 2^31 and 2^32-1} against an initial zone of SOA + 1..2 NS + 0..7 RRs; two thirds of the prerequisite RRs of later messages are re-aimed at a name/RRset that an earlier message's update section touched; ~7 % of the RRs carry one off-table edit (other class, TTL>0, RDATA against the row, AXFR/ANY type); applied through signed request bytes -> Request::from_bytes -> ZoneHandler::update with an in-memory journal (history_real_path) and through verify_prerequisites/pre_scan/update_records (history_direct). Non-trivial = distinct history AND >= 2 messages AND some prerequisite names an RRset/name changed by an earlier accepted message AND at least one accept and one reject",
+        assumptions: vec![
+            "where RFC 2136 text and pseudocode disagree (SOA add with equal serial; last NS of a non-apex NS RRset) or RFC 1982 leaves a comparison undefined, either result is accepted",
+            "class = zone add with empty RDATA (not a row of table 3.4.2.6) may be refused or added literally",
+            "the value of the SOA serial after an accepted update is the server's choice; only its RFC 1982 relation to the previous serial is asserted",
+            "exact error codes are recorded (classes error-code-differs:*), not asserted",
+            "DNSSEC signing is off (RRSIG/NSEC excluded by construction)",
+        ],
+        subs: vec![real, direct],
+    })
 }
